@@ -1421,6 +1421,8 @@ class QvmCpu:
             self.trap(TrapCode.INVALID_OPERAND_VALUE)
 
         if char.type == CellType.INTEGER:
+            if char.value < 0 or char.value > 255:
+                self.trap(TrapCode.INVALID_OPERAND_VALUE)
             char = bytes([char.value]).decode('cp437')
         elif char.type != CellType.STRING:
             self.trap(TrapCode.TYPE_MISMATCH,
